@@ -59,6 +59,12 @@ CLAIMS = {
  "C17": ("constructor field table of the notification + subscriber-set discipline + refusal paths",
          "notification header fields (method id evaluated on boundary event ids), one datagram per destination with all events, per-destination session id, set/has_clients invariant in subscribe/unsubscribe, one initial notification for the new endpoint, rounds read the set when they start, every failure in client_subscribed refuses; membership during a suspended round is not decided",
          "asyncio.Event / create_task semantics", "4 C17"),
+ "C03": ("interprocedural may-raise analysis with a linear length-fact domain + strict-consumption loop rule + guard-dominates-effects on all header combinations",
+         "escape sets of every decoder and of both receive paths (and their call_soon/call_later continuations), library raisers discharged only when the path's length facts exclude the failure; every while loop of a decoder strictly shortens its buffer; the SD filter decided on all 32x2 combinations of header fields / payload decodability; unicast-flag and multicast gates",
+         "frozen table of library raisers; user listener/handler exceptions, format_address and the encoder side are outside (not byte-dependent)", "4 C03"),
+ "C04": ("call-graph must-reach obligations through stored callbacks and scheduling edges + key agreement + deferral-stamp ordering (structural clauses only)",
+         "necessary conditions of convergence only: every link of the offer/subscribe/ack chain, of the periodic re-transmissions and of every withdrawal path exists; the auto-subscriber adds and removes under the same key; reboot handling precedes the entries of the same message; TTL/period constants are wired to the right places. The convergence-time bound itself is NOT decided (liveness over time and fault schedules)",
+         "asyncio FIFO ready queue; delivered datagrams reach datagram_received; timing and loss/duplication/reordering windows are outside", "4 C04"),
 }
 ENGINES = [{"name": "vstatic", "path": "vstatic/", "serves_properties": sorted(CLAIMS),
             "kind_free_text": "stdlib-ast static analyser: program facts, light type inference and call resolution, bounded path enumeration with inlining (terms, no solver), layout/codec tables, abstract evaluation of extracted formulas at representative points"}]
